@@ -8,6 +8,19 @@ use binrw::{BinRead, BinWrite};
 use cascette_crypto::{ContentKey, EncodingKey};
 use std::io::{Cursor, Read};
 
+/// Bytes left in `cursor`; a size field that exceeds it describes truncated data
+fn remaining(cursor: &Cursor<&[u8]>) -> usize {
+    cursor
+        .get_ref()
+        .len()
+        .saturating_sub(usize::try_from(cursor.position()).unwrap_or(usize::MAX))
+}
+
+/// The error `read_exact` reports for truncated data, raised before a buffer is reserved
+fn truncated() -> EncodingError {
+    EncodingError::from(std::io::Error::from(std::io::ErrorKind::UnexpectedEof))
+}
+
 /// Page data with entries
 #[derive(Debug, Clone)]
 pub struct Page<T> {
@@ -43,7 +56,7 @@ impl EncodingFile {
         header: &EncodingHeader,
         ckey_index: &[IndexEntry],
     ) -> Result<Vec<Page<CKeyPageEntry>>, EncodingError> {
-        let mut ckey_pages = Vec::with_capacity(header.ckey_page_count as usize);
+        let mut ckey_pages = Vec::with_capacity(ckey_index.len());
         let ckey_page_size = header.ckey_page_size();
         let ckey_hash_size = header.ckey_hash_size;
         let ekey_hash_size = header.ekey_hash_size;
@@ -52,6 +65,9 @@ impl EncodingFile {
         let min_entry_size = 1 + 5 + ckey_hash_size as u64;
 
         for index in ckey_index {
+            if ckey_page_size > remaining(cursor) {
+                return Err(truncated());
+            }
             let mut page_data = vec![0u8; ckey_page_size];
             cursor.read_exact(&mut page_data)?;
 
@@ -112,7 +128,7 @@ impl EncodingFile {
         header: &EncodingHeader,
         ekey_index: &[IndexEntry],
     ) -> Result<Vec<Page<EKeyPageEntry>>, EncodingError> {
-        let mut ekey_pages = Vec::with_capacity(header.ekey_page_count as usize);
+        let mut ekey_pages = Vec::with_capacity(ekey_index.len());
         let ekey_page_size = header.ekey_page_size();
         let ekey_hash_size = header.ekey_hash_size;
 
@@ -120,6 +136,9 @@ impl EncodingFile {
         let min_entry_size = ekey_hash_size as u64 + 4 + 5;
 
         for index in ekey_index {
+            if ekey_page_size > remaining(cursor) {
+                return Err(truncated());
+            }
             let mut page_data = vec![0u8; ekey_page_size];
             cursor.read_exact(&mut page_data)?;
 
@@ -216,12 +235,19 @@ impl EncodingFile {
         header.validate()?;
 
         // Read ESpec table (comes right after header per CASC specification)
+        // The sizes and counts of the header are checked against the input before anything
+        // is reserved for them
+        if header.espec_block_size as usize > remaining(&cursor) {
+            return Err(truncated());
+        }
         let mut espec_data = vec![0u8; header.espec_block_size as usize];
         cursor.read_exact(&mut espec_data)?;
         let espec_table = ESpecTable::parse(&espec_data)?;
 
         // Read CKey index
-        let mut ckey_index = Vec::with_capacity(header.ckey_page_count as usize);
+        // Each index entry takes 32 bytes of input
+        let mut ckey_index =
+            Vec::with_capacity((header.ckey_page_count as usize).min(remaining(&cursor) / 32));
 
         for _ in 0..header.ckey_page_count {
             // Read index entry manually to avoid binrw issues
@@ -236,7 +262,8 @@ impl EncodingFile {
         let ckey_pages = Self::parse_ckey_pages(&mut cursor, &header, &ckey_index)?;
 
         // Read EKey index
-        let mut ekey_index = Vec::with_capacity(header.ekey_page_count as usize);
+        let mut ekey_index =
+            Vec::with_capacity((header.ekey_page_count as usize).min(remaining(&cursor) / 32));
         for _ in 0..header.ekey_page_count {
             // Read index entry manually to avoid binrw issues
             let mut first_key = [0u8; 16];
